@@ -446,6 +446,10 @@ def device_sequences(g, devices):
             body.append(P.instr(c["mn"], *[to_prog_op(o) for o in c["ops"]]))
             body += [P.label("after"), P.instr("rjmp", P.E(P.sym("after"))), P.data(2, P.E(P.sym("after")))]
             out.append((devname, head + body))
+            if devname and i % 3 == 1:
+                # the form is not in the last block of the program
+                out.append((devname, head + copy.deepcopy(body) + [P.seg("data"), P.byte(1), P.seg("code"), P.instr("nop")]))
+                out.append((devname, head + copy.deepcopy(body) + [P.org(0x100), P.instr("ret"), P.seg("eeprom"), P.byte(1)]))
             if devname and i % 4 == 0:
                 # the device is selected by a macro body, the form stands before the (first) call of that macro
                 mac = [P.line("macro", n="chip"), P.line("device", n=devname), P.line("endm")]
